@@ -6,7 +6,7 @@ from lib.checkdef import default_replay_cmd, run_property
 def run(tier, seed):
     return run_property(
         "C03", tier, seed, level="other",
-        deductive=[("c03_wrap", None), ("c03_wrappers", None), ("c_op", r"^C03\."), ("c11_dispatch", r"\[(bool|const|nodiff),.*(tensors_unwrapped|out_unwrapped|other_keywords|exactly_one_call|returns_callee_result)")],
+        deductive=[("c03_wrap", None), ("c03_wrappers", None), ("c_op", r"^C03\."), ("c11_dispatch", r"\[(bool|const|nodiff),.*(tensors_unwrapped|out_unwrapped|other_keywords|exactly_one_call|returns_callee_result)|^C11\.ufunc_call")],
         replay=_dispatch_replay,
         bounded=[("api_bounded.py", ["--check", "C03"])],
         trusted=["NumPy itself is the oracle of the bounded part", "pyvc executor's model of keyword passing (**kwargs dicts, defaults)"],
